@@ -18,4 +18,7 @@ def templates(tier, seed):
                     if tier == "quick" and coerce and (rd != "all" or shape in ("frame_wide", "frame_index")):
                         continue
                     ts.append(Template(f"{shape}/rd={rd}/coerce={int(coerce)}/N={N}", t_drop, (shape, N, dict(rd=rd, coerce=coerce))))
+    import tmpl_pl
+
+    ts += [Template(tid, tmpl.pick(fn, LABELS), args) for tid, fn, args in tmpl_pl.drop_cases(tier)]
     return ts
